@@ -207,6 +207,7 @@ func (u *universe) runSchedule(sc *scenario, c *chooser) execResult {
 					}
 					commits = append(commits, done{b, parts, true, before})
 				case "commit-other":
+					unmanaged(func() { in.c.CheckBlock(a.block) })
 					if err := in.c.Commit(a.block, a.parts); err != nil {
 						vk.Fatalf("scenario %s: committing the prepared block fails: %v", sc.Name, err)
 					}
